@@ -465,3 +465,25 @@ add({"name": "check_track_is_supported", "file": "dfs/track.cc",
                (r"prev_rec_num = sect\.address\.record;", "{ prev_rec_num.has = 1; prev_rec_num.val = sect.address.record; }", 1)],
      "pre": "#define sect (track_sectors[si_])\n", "post": "#undef sect\n",
      "dropped": ["diagnostic texts", "verbose warning about a lowest record number other than 0"]})
+
+# ---- destination directory handling of extract-unused / extract-files, make_name (C12) ------------------------------
+def _destdir(name, file, end):
+    return {"name": name, "file": file,
+            "anchor": r"(?:std::)?string dest_dir\(args\[1\]\);",
+            "region_end": end,
+            "region_epilogue": "*out = dest_dir;\n",
+            "sig": "static void %s(struct cstr arg1, struct cstr *out)" % name,
+            "rules": [(r"(?:std::)?string dest_dir\(args\[1\]\);", "struct cstr dest_dir = arg1;", 1),
+                      (r"dest_dir\.back\(\)", "cstr_back(&dest_dir)", ">=1"), (r"dest_dir\.empty\(\)", "(dest_dir.n == 0)", ">=0"),
+                      (r"dest_dir\.push_back\(", "cstr_push(&dest_dir, ", ">=1")]}
+add(_destdir("destdir_extract_unused", "dfs/cmd_extract_unused.cc", r"const DFS::SurfaceSelector surface\("))
+add(_destdir("destdir_extract_files", "dfs/cmd_extract_files.cc", r"std::string error;\s*auto mounted = storage\.mount\("))
+add({"name": "make_name", "file": "dfs/cmd_extract_unused.cc",
+     "anchor": r"std::string make_name\(const std::string& dest_dir, sector_count_type first_sector\)",
+     "sig": "static void make_name(const struct cstr dest_dir, sector_count_type first_sector)",
+     "pre": "#define ss (&ss_obj)\n", "post": "#undef ss\n",
+     "rules": [(r"assert\(dest_dir\.back\(\) == '/'\);", "VERIF_ASSERT(cstr_back(&dest_dir) == '/');", 1),
+               (r"std::ostringstream ss;", "os_init(&ss_obj);", 1),
+               (r"ss << dest_dir", "ss << CSTR(dest_dir)", 1),
+               ("OSTREAM_CHAIN", "ss", 1),
+               (r"return ss\.str\(\);", "return;  /* the assembled string is the sequence of events */", 1)]})
